@@ -203,6 +203,9 @@ VARIANTS = {
     'asan': (['gcc'], ['-std=c99', '-O1', '-g', '-w', '-D' + GUARD, '-fno-omit-frame-pointer',
                        '-fsanitize=address,undefined', '-fno-sanitize-recover=all']),
     'nohook': (['gcc'], ['-std=c99', '-O1', '-g', '-w']),
+    # differently built binaries of the same tree: another compiler (arguments evaluated in the other order) and no optimisation
+    'clang': (['clang'], ['-std=c99', '-O2', '-w', '-D' + GUARD]),
+    'gccO0': (['gcc'], ['-std=c99', '-O0', '-w', '-D' + GUARD, '-fstack-protector-all']),
 }
 
 _built = {}
